@@ -615,7 +615,6 @@ class RxPipeline(Elaboratable):
         m.d.comb += [
             bitstuff.i_valid.eq(nrzi.o_valid),
             bitstuff.i_data.eq(nrzi.o_data),
-            self.o_receive_error.eq(bitstuff.o_error)
         ]
 
         #
@@ -667,6 +666,23 @@ class RxPipeline(Elaboratable):
             m.d.usb += self.o_pkt_in_progress.eq(1)
         with m.Elif(self.o_pkt_end):
             m.d.usb += self.o_pkt_in_progress.eq(0)
+
+        #
+        # Bit-stuff error reporting.
+        #
+        # The bit-stuff remover flags an error for a single 48MHz cycle, and also does so on an idle bus; a consumer
+        # in the 12MHz domain would only see that strobe if it happened to coincide with its clock edge. Instead, we
+        # remember an error that occurs inside a packet until the next packet starts, bring that level over into the
+        # 12MHz domain, and report it for as long as the packet is in progress there.
+        error_in_packet = Signal()
+        error_in_packet_usb = Signal()
+        with m.If(detect.o_pkt_start):
+            m.d.usb_io += error_in_packet.eq(0)
+        with m.Elif(bitstuff.o_error & past_o_pkt_active):
+            m.d.usb_io += error_in_packet.eq(1)
+
+        m.submodules.error_cdc = FFSynchronizer(error_in_packet, error_in_packet_usb, o_domain="usb")
+        m.d.comb += self.o_receive_error.eq(error_in_packet_usb & self.o_pkt_in_progress)
 
         return m
 
